@@ -417,6 +417,21 @@ def run_trial(subj: Subject, cycles: list[list[str]], work: Path, own: dict[str,
                 # is written (no file is produced, the property says nothing); the input file must be untouched.
                 if out.exists():
                     probs.append(('aborted-save-left-a-file', f'cycle {ci}: {type(e).__name__}: {e}'))
+                # ... and the caller carries on with the same object (nothing was modified): a later save either raises
+                # again, or writes a file that still holds the content of the original.  The view whose writer raised had
+                # its lumps cleared when it was looked at; if the aborted save forgot its parsed value the retry writes them empty.
+                retry = work / f't{ci}_retry.bsp'
+                retry.unlink(missing_ok=True)
+                try:
+                    with _quiet():
+                        b.save(os.fspath(retry))
+                except Exception as e2:      # noqa: BLE001
+                    if not subj.raises_like_unparsable(e2):
+                        probs.append(('save-raises', f'cycle {ci}: save after an aborted save: {type(e2).__name__}: {e2}'))
+                    return probs
+                for kind, detail in compare(subj, retry, own):
+                    probs.append(('lost-after-aborted-save:' + kind, f'cycle {ci}: the first save raised {type(e).__name__} (a writer looked at '
+                                  f'an unparsable view), the second save of the same object completed: {detail}'))
                 return probs
             return probs + [('save-raises', f'cycle {ci}: {type(e).__name__}: {e}')]
         if b._parsed_lumps:
@@ -691,7 +706,7 @@ Definition b2n (b : bool) : nat := if b then 1 else 0.
 Definition sim (g : graph) (ne bad : list nat) (accs : list nat) :=
   let s0 := mkS (fun l => if mem l ne then 1 else 0) (fun _ => None) in
   let s1 := run nat bool 0 (rdB bad) g bsp_shape accs s0 in
-  let r := save nat bool 0 (rdB bad) (wrB g) g bsp_shape s1 in
+  let r := save_a nat bool 0 (rdB bad) (wrB g) g bsp_shape bsp_save_restores_on_abort s1 in
   [map b2n (run_flags nat bool 0 (rdB bad) g bsp_shape accs s0)] ++ obs g ne s1 ++ [[b2n (fst r)]] ++ obs g ne (snd r).
 '''
     bad = []
@@ -1169,6 +1184,9 @@ def run(ck: Ck) -> None:
             # changes themselves, the loops / tests around them and the final return (nothing that can still raise follows)
             'restored_mutations_happen_after_everything_that_can_raise':
                 f'forallb (fun p => negb (existsb ({pair_eqb} p) bsp_reader_elem_mutations_early)) {restored_coq}',
+            # what BSP.save leaves behind when a writer raises (theorem c10_aborted_save_keeps_content is about save_a true; without
+            # the except clause the popped view is dropped although its lumps were cleared: c10_aborted_save_drops_view_refuted)
+            'aborted_save_puts_the_popped_view_back': 'bsp_save_restores_on_abort',
             'readers_only_read_the_views_they_look_at': 'forallb (fun u => Nat.eqb (snd u) 0) bsp_reader_uses',
             'writers_only_read_or_append_to_the_views_they_look_at': 'forallb (fun u => Nat.leb (snd u) 1) bsp_writer_uses',
         })
@@ -1379,6 +1397,11 @@ def run(ck: Ck) -> None:
             attempt(s, opts, [[v]])
         # a failing reader that changes objects of another view: the caller already holds that view / asks for it afterwards / the
         # file saved after the failed look is read again and the changed view is looked at
+        # views that can be looked at but whose WRITER looks at a view that cannot: save raises half-way (tolerated), the caller
+        # carries on and saves again
+        for w in VIEWS:
+            if w not in failing and side and set(side['views'].get(w, {}).get('writer_views', ())) & set(failing):
+                attempt(s, opts, [[w]])
         for a, b2 in REVIEWED_ELEMENT_MUTATIONS:
             if a in failing and b2 not in failing:
                 attempt(s, opts, [[b2, a]])
@@ -1471,6 +1494,8 @@ def run(ck: Ck) -> None:
                    'cleared_lumps_are_never_stored_conditionally'):
             if inst.get(nm) is False:
                 ck.explain('instance:' + nm)
+    if 'lost-after-aborted-save' in kinds and inst.get('aborted_save_puts_the_popped_view_back') is False:
+        ck.explain('instance:aborted_save_puts_the_popped_view_back')
     # a false codec premise is explained by a concrete look + save history that changes content, raises or is unstable
     if kinds & {'hangs', 'oracle-raises'}:
         ck.explain('correspondence:')
